@@ -474,7 +474,7 @@ def run_case(idx, rng, tier, ctx):
                 s2, i2 = run.run_variant(v, vopts[v], True, v + '_d')
                 if s2 in ('equal', 'same-text'):
                     attributed = hostile
-                    key = f'{MECH[hostile]}:{v}:{coarse(cls)}'
+                    key = MECH[hostile]
                 elif s2 == 'orig_bad':
                     res['inconclusive'] = 'generator defect (hostile-free kernel): ' + i2['detail'][:300]
                     break
